@@ -476,6 +476,7 @@ pub fn run_job<S: Service + 'static>(config: &Config, name: &str, job: &Value, t
                         "kk": kk, "whole": whole, "nw": nw, "nr": nr, "nn": nn}));
         summary.count(a, &res);
         done += 1;
+        tw.flush(); // a later abort of the code under test must not lose what was observed
     }
     if trunc.is_some() {
         summary.truncated += 1;
